@@ -127,27 +127,21 @@ structure State where
   c2s : Bytes
   /-- written by the bus, not yet delivered to the client -/
   s2c : Bytes
-  /-- ghost: everything delivered to the bus so far -/
-  fedS : Bytes
-  /-- ghost: everything delivered to the client so far -/
-  fedC : Bytes
 
 /-- Both `connectionMade`s: the client writes NUL and its first AUTH line. -/
 def init (cfg : Cfg) : State :=
   let c := AuthClient.connectionMade Gen.ClientAuth.preference cfg.unix (envOf cfg cfg.w0)
-  { c := c, s := AuthServer.Proto.init cfg.guid cfg.w0, c2s := wireC cfg.hello c.trace, s2c := [],
-    fedS := [], fedC := [] }
+  { c := c, s := AuthServer.Proto.init cfg.guid cfg.w0, c2s := wireC cfg.hello c.trace, s2c := [] }
 
 /-- The bus reads `d`; `rest` stays queued. -/
 def feedS (st : State) (d rest : Bytes) : State :=
   let s' := AuthServer.recv real st.s d
-  { st with s := s', c2s := rest, s2c := st.s2c ++ wireS (s'.sent.drop st.s.sent.length), fedS := st.fedS ++ d }
+  { st with s := s', c2s := rest, s2c := st.s2c ++ wireS (s'.sent.drop st.s.sent.length) }
 
 /-- The client reads `d`; `rest` stays queued.  The environment of its cookie step is the bus's world now. -/
 def feedC (cfg : Cfg) (st : State) (d rest : Bytes) : State :=
   let c' := AuthClient.dataReceived (fun _ => envOf cfg st.s.srv.world) st.c d
-  { st with c := c', s2c := rest, c2s := st.c2s ++ wireC cfg.hello (c'.trace.drop st.c.trace.length),
-            fedC := st.fedC ++ d }
+  { st with c := c', s2c := rest, c2s := st.c2s ++ wireC cfg.hello (c'.trace.drop st.c.trace.length) }
 
 /-- One read of the bus: the first `n + 1` queued bytes (all of them when fewer are queued). -/
 def toServer (n : Nat) (st : State) : State :=
